@@ -345,6 +345,7 @@ struct ProbeCtx {
     in_replace: AtomicBool,
     results: Mutex<Vec<(u64, bool, bool)>>, // (map id, dropped inside replace, update mutex held then)
     helpers: Mutex<Vec<std::thread::JoinHandle<()>>>,
+    raw: std::sync::atomic::AtomicUsize, // address of the sole handle (kind 2), 0 otherwise
 }
 /// A GuestMemory whose Drop reports whether it runs inside `replace` and whether the update mutex of
 /// the GuestMemoryAtomic is held at that moment (asked from a helper thread: lock() must block).
@@ -376,6 +377,19 @@ impl Drop for ProbeMem {
         let ins = self.ctx.in_replace.load(Ordering::SeqCst);
         let mut held = false;
         if ins {
+            let raw = self.ctx.raw.load(Ordering::SeqCst);
+            if raw != 0 {
+                let (tx, rx) = mpsc::channel();
+                let h = std::thread::spawn(move || {
+                    // SAFETY: exec_probe keeps the handle alive until every helper thread was joined
+                    let a: &GuestMemoryAtomic<ProbeMem> = unsafe { &*(raw as *const GuestMemoryAtomic<ProbeMem>) };
+                    let g = a.lock();
+                    let _ = tx.send(());
+                    drop(g);
+                });
+                held = rx.recv_timeout(Duration::from_millis(40)).is_err();
+                self.ctx.helpers.lock().unwrap().push(h);
+            }
             let a = self.ctx.atomic.lock().unwrap().clone();
             if let Some(a) = a {
                 let (tx, rx) = mpsc::channel();
@@ -400,11 +414,17 @@ fn exec_probe(case: &[Tok]) -> Vec<Tok> {
         in_replace: AtomicBool::new(false),
         results: Mutex::new(Vec::new()),
         helpers: Mutex::new(Vec::new()),
+        raw: std::sync::atomic::AtomicUsize::new(0),
     });
     let a = GuestMemoryAtomic::new(ProbeMem { inner: mk(), id: 0, ctx: ctx.clone() });
-    *ctx.atomic.lock().unwrap() = Some(a.clone());
+    if kind == 2 {
+        // sole handle: the helper thread reaches it by reference (address), no clone is ever made
+        ctx.raw.store(&a as *const GuestMemoryAtomic<ProbeMem> as usize, Ordering::SeqCst);
+    } else {
+        *ctx.atomic.lock().unwrap() = Some(a.clone());
+    }
     let mut out: Vec<u128> = Vec::new();
-    if kind == 0 {
+    if kind == 0 || kind == 2 {
         let reader = if hold == 1 { Some(a.memory()) } else { None };
         for k in 0..nrep {
             let g = a.lock().unwrap();
@@ -445,6 +465,12 @@ fn exec_probe(case: &[Tok]) -> Vec<Tok> {
     }
     // break the cycle ctx -> atomic -> ProbeMem -> ctx and let the helper threads finish
     *ctx.atomic.lock().unwrap() = None;
+    // helper threads of the sole-handle probe use `a` by address: join them before `a` goes away
+    let hs: Vec<_> = ctx.helpers.lock().unwrap().drain(..).collect();
+    for h in hs {
+        let _ = h.join();
+    }
+    ctx.raw.store(0, Ordering::SeqCst);
     drop(a);
     let hs: Vec<_> = ctx.helpers.lock().unwrap().drain(..).collect();
     for h in hs {
@@ -458,6 +484,7 @@ fn gen_probe(_rng: &mut Rng, tier: Tier, emit: &mut dyn FnMut(Vec<Tok>)) {
     for &nrep in reps {
         for hold in 0..2u64 {
             emit(vec![n(0u8), n(nrep), n(hold)]);
+            emit(vec![n(2u8), n(nrep), n(hold)]);
         }
     }
     for _ in 0..(if tier == Tier::Quick { 2 } else { 10 }) {
